@@ -66,21 +66,37 @@ def gen(c):
         s["skin_thickness_cp"] = [0.008, 0.015]
         tk = "wing.spar_thickness_cp"
         tv = lambda: [float(x) for x in np.round(rng.uniform(0.004, 0.01, 2), 4)]  # noqa: E731
+    npm = int(rng.choice([0, 1, 2]))
+    extra = {}
+    b2 = spec["span"] / 2
+
+    def pm_point(k):
+        """engine position, mass and thrust of design point k (thrust exactly zero at every other point)"""
+        if not npm:
+            return {}
+        return {"point_mass_locations": [[float(rng.uniform(-1, 2)), float(-rng.uniform(0.15, 0.85) * b2), float(rng.uniform(-0.5, 0.5))] for _ in range(npm)],
+                "point_masses": [float(x) for x in 10 ** rng.uniform(1.5, 3, npm)],
+                "engine_thrusts": [0.0] * npm if k % 2 else [float(x) for x in 10 ** rng.uniform(2, 4, npm)]}
+
+    if npm:
+        s["n_point_masses"] = npm
+        extra = pm_point(0)
     if model == "struct":
         s["distributed_fuel_weight"] = False
-        case = dict(surface=s, load_seed=int(rng.integers(1 << 30)))
+        case = dict(surface=s, load_seed=int(rng.integers(1 << 30)), **extra)
         tkk = tk.replace("wing.", "")
         for k in range(c["npoints"]):
-            pts.append({tkk: tv(), "load_factor": float(rng.choice([1.0, 2.5]))})
+            pts.append(dict({tkk: tv(), "load_factor": float(rng.choice([1.0, 2.5]))}, **pm_point(k)))
         of = ["failure", "structural_mass", "disp"]
         wrt = [tkk, "loads"]
         return "struct", case, pts, of, wrt
     npts = 2 if model == "multipoint" else 1
     flows = [dict(alpha=3.0, v=150.0, rho=0.5, Mach_number=0.7, load_factor=1.0), dict(alpha=5.0, v=120.0, rho=0.7, Mach_number=0.6, load_factor=2.5)][:npts]
-    case = dict(surfaces=[s], flows=flows, compressible=bool(rng.integers(2)))
+    case = dict(surfaces=[s], flows=flows, compressible=bool(rng.integers(2)), **extra)
     for k in range(c["npoints"]):
         p = {"alpha_0": float(np.round(rng.uniform(0, 6), 2)), "Mach_number_0": [0.6, 0.9, 0.75, 0.88][k % 4], tk: tv(),
              "wing.twist_cp": [float(x) for x in np.round(rng.uniform(-2, 2, 2), 2)]}
+        p.update(pm_point(k))
         if npts == 2:
             p["alpha_1"] = float(np.round(rng.uniform(0, 6), 2))
         pts.append(p)
